@@ -536,7 +536,7 @@ func runExtract(c ExtractCase) (o hx.Outcome) {
 					how += fmt.Sprintf(" after %s failed with the injected %s", xt.Hit.short(outDir), c.Errno)
 				}
 			}
-			o.Fail(sig, "extract without -k %s (%s %s #%d, %d of %d distinct chunks served, n=%d, rename onto the destination seen: %v) and the destination is neither in its previous state nor the complete blob: %s; directory now holds %v",
+			o.Fail(sig, "extract without -k %s (%s %s #%d, %d responses served for %d distinct chunks, n=%d, rename onto the destination seen: %v) and the destination is neither in its previous state nor the complete blob: %s; directory now holds %v",
 				how, c.Death, c.Syscall, c.When, served, len(distinct), c.N, xt.Renamed, d, maskNames(listFiles(outDir)))
 		}
 		return o
